@@ -181,9 +181,12 @@ class PureEval:
     def __init__(self, ex, st: St, env: Dict[str, SV], old_st: St = None, bound=None):
         self.ex, self.st, self.env, self.old_st = ex, st, env, old_st
         self.specenv: SpecEnv = ex.spec if ex is not None else None
+        self.defs: List[Any] = []      # definedness side conditions (dict key present, index in range)
 
     def sub(self, env=None, st=None):
-        return PureEval(self.ex, st or self.st, env if env is not None else self.env, self.old_st)
+        p = PureEval(self.ex, st or self.st, env if env is not None else self.env, self.old_st)
+        p.defs = self.defs
+        return p
 
     def truth(self, e):
         return ops.truth(self.st, self.ev(e))
@@ -226,6 +229,9 @@ class PureEval:
         return self.attr(o, e.attr)
 
     def attr(self, o, name):
+        if isinstance(o, SPrim) and (o.ty, name) in S.OPAQUE_ATTRS:
+            ty, f = S.OPAQUE_ATTRS[(o.ty, name)]
+            return S.wrap(ty, f(o.t))
         if isinstance(o, SPrim) and o.ty in S.DATA_FIELDS:
             try:
                 return ops.data_field(o, name)
@@ -255,8 +261,10 @@ class PureEval:
         if isinstance(o, SDictV):
             kt = ops.key_term(o.kty, i)
             if kt is None: raise Unsupported("spec: dict key of another type")
+            self.defs.append(("KeyError", o.dom[kt]))
             return S.wrap(o.vty, o.val[kt])
         if isinstance(o, SSeq):
+            self.defs.append(("IndexError", z3.And(i.t >= -o.n, i.t < o.n)))
             return S.wrap(o.elem, o.arr[i.t])
         raise Unsupported(f"spec: subscript on {o}")
 
@@ -421,6 +429,9 @@ class PureEval:
                 x = z3.Const("x!ss", S.sort_of(o.elem))
                 p, q = (o, b) if f.attr == "issubset" else (b, o)
                 return B(z3.ForAll([x], z3.Implies(p.mem[x], q.mem[x])))
+            if isinstance(o, SPrim) and (o.ty, f.attr) in S.OPAQUE_METHODS:
+                ty, fn_ = S.OPAQUE_METHODS[(o.ty, f.attr)]
+                return S.wrap(ty, fn_(o.t))
             # pure program methods (single return) on objects / data values
             cls = None
             if isinstance(o, SPrim) and o.ty in S.DATA_FIELDS: cls = o.ty
